@@ -33,6 +33,7 @@ type ProbeStore struct {
 	found  []string
 	probes atomic.Int64
 
+	wg          sync.WaitGroup
 	fdb         *FaultDB
 	failFlush   atomic.Int64
 	flushFailed atomic.Int64
@@ -43,6 +44,10 @@ func (p *ProbeStore) SetManager(cm *chain.Manager) { p.cm.Store(cm) }
 // Writer runs fn (a call of a state-changing Manager method named name) with the probe armed.
 func (p *ProbeStore) Writer(name string, fn func()) {
 	p.writer.Store(name)
+	// the readers started from inside the writer sit on the manager's lock until the writer is
+	// done; they must be gone before the caller goes on (it may reopen the database or read the
+	// store directly, without the manager's lock)
+	defer p.wg.Wait()
 	defer p.writer.Store("")
 	fn()
 }
@@ -75,7 +80,9 @@ func (p *ProbeStore) hit(site string) {
 	p.probes.Add(1)
 	done := make(chan string, 1)
 	which := n / every % 3
+	p.wg.Add(1)
 	go func() {
+		defer p.wg.Done()
 		switch which {
 		case 0:
 			cm.Tip()
